@@ -282,7 +282,7 @@ impl Case {
             })
             .collect();
         let nm: Vec<String> = self.names.iter().map(|n| format!("{}={}", hex(n.name.as_bytes()), hex(self.target_text(&n.target).as_bytes()))).collect();
-        let d = if self.fmt == Fmt::Ods || self.sheets.is_empty() { "-".to_string() } else { (self.date1904 as u8).to_string() };
+        let d = if self.fmt == Fmt::Ods || self.sheets.is_empty() { "-".to_string() } else { (self.date1904 as u8).to_string().repeat(date_kinds(self.fmt)) };
         format!("ok d={} S={} N={}", d, sh.join(","), nm.join(","))
     }
 }
@@ -504,9 +504,23 @@ struct Built {
     ties: Vec<(String, String)>,
 }
 
-/// the serial of the date-styled cell of sheet `i` and its position
+/// the row of date-styled cells of sheet `i`, its first column and the base serial. Every numeric record kind and
+/// encoding of the format gets one date-styled cell in this row (see `DATE_KINDS`), in consecutive columns.
 fn date_cell(i: usize) -> (u32, u32, f64) {
     ((i % 3) as u32, (i % 4) as u32, 40000.0 + i as f64 + 0.5)
+}
+
+/// number of date-styled numeric cells per sheet:
+/// xls   NUMBER, RK int, RK int/100, RK float, RK float/100, MULRK (int + float/100), FORMULA with a cached number
+/// xlsb  BrtCellReal, BrtCellRk int, int/100, float, float/100, BrtFmlaNum
+/// xlsx  `<c><v>` (with or without t="n", the layout decides), a whole number, a formula with a cached number
+fn date_kinds(fmt: Fmt) -> usize {
+    match fmt {
+        Fmt::Xls => 8,
+        Fmt::Xlsb => 6,
+        Fmt::Xlsx => 3,
+        Fmt::Ods => 0,
+    }
 }
 
 fn units_hex(u: &[u16]) -> String {
@@ -546,9 +560,26 @@ fn build_xls(c: &Case) -> Built {
         sh.kind = s.kind.xls_dt();
         sh.name_wide = if c.plain { Some(false) } else { None };
         let (r, col, v) = date_cell(i);
-        let mut dc = xlsw::XlsCell::new(r as u16, col as u16, xlsw::CellV::Number(v));
-        dc.xf = 1;
-        sh.cells.push(dc);
+        let whole = v.floor() as i32;
+        // a double whose low 34 bits are zero (what an RK float can hold), about 100 * v
+        let v100 = ((whole * 100 + 50) & !15) as f64;
+        let kinds: Vec<xlsw::CellV> = vec![
+            xlsw::CellV::Number(v),
+            xlsw::CellV::Rk(xlsw::rk_int(whole, false)),
+            xlsw::CellV::Rk(xlsw::rk_int(whole * 100 + 50, true)),
+            xlsw::CellV::Rk(xlsw::rk_float(v, false).expect("rk float")),
+            xlsw::CellV::Rk(xlsw::rk_float(v100, true).expect("rk float/100")),
+            xlsw::CellV::MulRk(vec![(1, xlsw::rk_int(whole + 1, false)), (1, xlsw::rk_float(v100, true).expect("rk"))]),
+            xlsw::CellV::Formula { rgce: xlsw::rgce_int(1), cached: xlsw::Cached::Num(v) },
+        ];
+        let mut cc = col as u16;
+        for k in kinds {
+            let width = if let xlsw::CellV::MulRk(x) = &k { x.len() as u16 } else { 1 };
+            let mut dc = xlsw::XlsCell::new(r as u16, cc, k);
+            dc.xf = 1;
+            sh.cells.push(dc);
+            cc += width;
+        }
         sh.cells.push(xlsw::XlsCell::new(r as u16 + 1, col as u16, xlsw::CellV::Number(7.25)));
         book.sheets.push(sh);
     }
@@ -647,7 +678,17 @@ fn build_xlsb(c: &Case) -> Built {
             Kind::Macro => xlsbw::SheetKind::Macro,
         };
         let (r, col, v) = date_cell(i);
+        let whole = v.floor() as i32;
         sh.set(r, col, xlsbw::BVal::real(v)).style = 1;
+        sh.set(r, col + 1, xlsbw::BVal::rk_int(whole, false)).style = 1;
+        sh.set(r, col + 2, xlsbw::BVal::rk_int(whole * 100 + 50, true)).style = 1;
+        sh.set(r, col + 3, xlsbw::BVal::rk_float(v.to_bits(), false)).style = 1;
+        sh.set(r, col + 4, xlsbw::BVal::rk_float((v * 100.0).to_bits(), true)).style = 1;
+        {
+            let c = sh.set(r, col + 5, xlsbw::BVal::real(v));
+            c.style = 1;
+            c.fmla = Some(xlsbw::Fmla::trivial());
+        }
         sh.set(r + 1, col, xlsbw::BVal::real(7.25));
         book.sheets.push(sh);
     }
@@ -738,6 +779,8 @@ fn build_xlsx(c: &Case) -> Built {
         sh.folder = s.kind.folder().to_string();
         let (r, col, v) = date_cell(i);
         sh.set(r, col, xlsxw::XCell::num(&format!("{v}")).with_style(1));
+        sh.set(r, col + 1, xlsxw::XCell::num(&format!("{}", v.floor() as i64)).with_style(1));
+        sh.set(r, col + 2, xlsxw::XCell::num(&format!("{v}")).with_style(1).with_formula("1+1"));
         sh.set(r + 1, col, xlsxw::XCell::num("7.25"));
         book.sheets.push(sh);
     }
@@ -1061,6 +1104,9 @@ fn canon_model(c: &Case, reply: &str) -> String {
     let mut d = w[1].to_string();
     if c.fmt == Fmt::Ods || w[2] == "S=" {
         d = "d=-".into();
+    } else {
+        // the model decodes one flag; every date-styled cell of every sheet must show it
+        d = format!("d={}", w[1][2..].repeat(date_kinds(c.fmt)));
     }
     let sheets: Vec<String> = w[2][2..]
         .split(',')
@@ -1544,7 +1590,7 @@ fn main() {
         "C16",
         "one case = one logical workbook (0-12 sheets with unique names of 1-31 UTF-16 units drawn from ASCII, XML specials, Latin-1, BMP and non-BMP characters, \
          excluding the characters Excel forbids in sheet names and NUL, sometimes with a leading U+FEFF; every visibility x kind the format expresses; 0-10 defined names: text for \
-         xlsx/ods, absolute PtgRef3d/PtgArea3d/PtgRefErr3d for xls/xlsb; both date systems, one date-styled cell per sheet; xlsx: in half of the cases an extLst with foreign-namespace elements whose local names are workbookPr / definedName / sheet) written under a random layout; non-trivial = at \
+         xlsx/ods, absolute PtgRef3d/PtgArea3d/PtgRefErr3d for xls/xlsb; both date systems, in every sheet one date-styled cell of every numeric record kind and encoding (xls: NUMBER, RK x4, MULRK, FORMULA; xlsb: BrtCellReal, BrtCellRk x4, BrtFmlaNum; xlsx: number, whole number, formula with cached number), each checked for the flag; xlsx: in half of the cases an extLst with foreign-namespace elements whose local names are workbookPr / definedName / sheet) written under a random layout; non-trivial = at \
          least one sheet and (several sheets, a defined name, or a non-default visibility/kind); \
          about 4% of the xls / ods cases carry an out-of-specification detail (DATEMODE = 2; a style name defined twice) on which only implementation and model are compared; unit cases = BoundSheet8 payloads (all 65536 hsState x dt byte pairs, random and truncated strings)",
     );
